@@ -56,7 +56,8 @@ RESERVED = {"nrow", "ncol", "author", "time_generated", "source_file",
             "pandas_version", "numpy_version", "python_inc", "python_lib",
             "comment"}
 COLCHARS = "abcXYZ019 -_"
-TEXTS = ["ab,c", 'say "hi"', "a:b", "#tag", "x y", "plain", "k=v;w",
+TEXTS = [" lead", "trail ", "  two blanks", "ab,c", 'say "hi"', "a:b", "#tag",
+         "x y", "plain", "k=v;w",
          "comma, and \"quote\"", "colon: here", "# hash first", "z-9_a",
          "it's", "a,b,c,d", "[1]", "end#"]
 KEYCH = "abcdefghijklmnopqrstuvwxyz0123456789_"
@@ -561,6 +562,37 @@ class World:
         self.ctx.hit("probe.frame_from_read_csv_written_again")
         self.read_one(csvmod, lname, "rewrite_from_read")
 
+    def op_rejected_write(self, csvmod):
+        """write_csv with a source_file that does not exist is rejected with
+        ValueError; what was written under that name before stays readable."""
+        cs = self.cs
+        cands = [n for n in sorted(self.store)
+                 if self.store[n].get("defined", True)
+                 and self.store[n]["mode"] != "member"
+                 and not self.store[n].get("frozen")]
+        if not cands:
+            return
+        lname = cands[cs.draw("which", len(cands))]
+        rec = self.store[lname]
+        df, _ = gen_frame(cs, "rj")
+        self.set_seams(csvmod)
+        self.log.ev("rejected_write", lname, rec["mode"])
+        try:
+            csvmod.write_csv(df, self.path_arg(rec["path"], "fn"), {"x": "y"},
+                             self.root / "no_such_script.py",
+                             compress=(rec["mode"] != "plain"))
+        except ValueError:
+            self.ctx.hit("fault.write_rejected_missing_source_file")
+        except Exception as e:
+            raise Violation("rejected_write_wrong_exception",
+                            f"write_csv with a missing source_file raised "
+                            f"{e!r}", "rejected_write")
+        else:
+            raise Violation("invalid_write_accepted", "write_csv accepted a "
+                            "source_file that does not exist",
+                            "rejected_write")
+        self.read_one(csvmod, lname, "rejected_write")
+
     def op_open_archive(self):
         n = len(self.archives) + 1
         aname = f"arc{n}"
@@ -641,6 +673,7 @@ class World:
 
 
 OPS = [("write", 10), ("overwrite", 4), ("read", 10), ("rewrite_from_read", 4),
+       ("rejected_write", 3),
        ("open_archive", 3),
        ("reopen_archive", 3), ("chdir", 3), ("tick", 4), ("restart", 2)]
 
@@ -674,6 +707,8 @@ def run(cs, log, ctx):
                     w.op_read(csvmod)
                 elif kind == "rewrite_from_read":
                     w.op_rewrite_from_read(csvmod)
+                elif kind == "rejected_write":
+                    w.op_rejected_write(csvmod)
                 elif kind == "open_archive":
                     w.op_open_archive()
                 elif kind == "reopen_archive":
